@@ -312,6 +312,31 @@ Section Pick2.
   Qed.
 End Pick2.
 
+Lemma shapes_a2b2 bat n1 n2 B1 B2 S1 S2 :
+  shapes (ArrayToBlocks (bat ++ [n1; n2]) [B1; B2] [S1; S2]) =
+  finish (bat ++ [nblk n1 B1 S1; nblk n2 B2 S2; B1; B2]) (bat ++ [n1; n2]).
+Proof. cbn [shapes length]. rewrite (droplast_app_len bat [n1; n2]) by reflexivity. rewrite num_blks_2. reflexivity. Qed.
+
+Lemma shapes_b2a2 bat n1 n2 B1 B2 S1 S2 :
+  shapes (BlocksToArray (bat ++ [n1; n2]) [B1; B2] [S1; S2]) =
+  finish (bat ++ [n1; n2]) (bat ++ [nblk n1 B1 S1; nblk n2 B2 S2; B1; B2]).
+Proof. cbn [shapes length]. rewrite (droplast_app_len bat [n1; n2]) by reflexivity. rewrite num_blks_2. reflexivity. Qed.
+
+Lemma wf_a2b2_facts bat n1 n2 B1 B2 S1 S2 : wf (ArrayToBlocks (bat ++ [n1; n2]) [B1; B2] [S1; S2]) = true ->
+  ishape_of (ArrayToBlocks (bat ++ [n1; n2]) [B1; B2] [S1; S2]) = bat ++ [n1; n2] /\
+  ishape_of (BlocksToArray (bat ++ [n1; n2]) [B1; B2] [S1; S2]) = bat ++ [nblk n1 B1 S1; nblk n2 B2 S2; B1; B2] /\
+  (0 < n1 /\ 0 < n2 /\ 0 < B1 /\ 0 < B2)%Z.
+Proof.
+  intros Hwf. unfold wf in Hwf. unfold ishape_of. rewrite shapes_a2b2 in *. rewrite shapes_b2a2.
+  unfold finish in *. rewrite (andb_comm (all_pos (bat ++ [n1; n2]))).
+  destruct (all_pos (bat ++ [nblk n1 B1 S1; nblk n2 B2 S2; B1; B2]) && all_pos (bat ++ [n1; n2])) eqn:E; [|discriminate].
+  apply andb_true_iff in E. destruct E as [E1 E2].
+  apply all_pos_snoc2 in E2.
+  replace (bat ++ [nblk n1 B1 S1; nblk n2 B2 S2; B1; B2]) with ((bat ++ [nblk n1 B1 S1; nblk n2 B2 S2]) ++ [B1; B2]) in E1
+    by (rewrite <- app_assoc; reflexivity).
+  apply all_pos_snoc2 in E1. repeat split; tauto.
+Qed.
+
 Section Blk2.
   Variable R : StarRing.
   Add Ring RringN4 : (SRth R).
@@ -321,31 +346,6 @@ Section Blk2.
   Variable orc : linop -> farr -> farr.
   Notation D := (D R arr scal orc).
   Local Open Scope sr_scope.
-
-  Lemma shapes_a2b2 bat n1 n2 B1 B2 S1 S2 :
-    shapes (ArrayToBlocks (bat ++ [n1; n2]) [B1; B2] [S1; S2]) =
-    finish (bat ++ [nblk n1 B1 S1; nblk n2 B2 S2; B1; B2]) (bat ++ [n1; n2]).
-  Proof. cbn [shapes length]. rewrite (droplast_app_len bat [n1; n2]) by reflexivity. rewrite num_blks_2. reflexivity. Qed.
-
-  Lemma shapes_b2a2 bat n1 n2 B1 B2 S1 S2 :
-    shapes (BlocksToArray (bat ++ [n1; n2]) [B1; B2] [S1; S2]) =
-    finish (bat ++ [n1; n2]) (bat ++ [nblk n1 B1 S1; nblk n2 B2 S2; B1; B2]).
-  Proof. cbn [shapes length]. rewrite (droplast_app_len bat [n1; n2]) by reflexivity. rewrite num_blks_2. reflexivity. Qed.
-
-  Lemma wf_a2b2_facts bat n1 n2 B1 B2 S1 S2 : wf (ArrayToBlocks (bat ++ [n1; n2]) [B1; B2] [S1; S2]) = true ->
-    ishape_of (ArrayToBlocks (bat ++ [n1; n2]) [B1; B2] [S1; S2]) = bat ++ [n1; n2] /\
-    ishape_of (BlocksToArray (bat ++ [n1; n2]) [B1; B2] [S1; S2]) = bat ++ [nblk n1 B1 S1; nblk n2 B2 S2; B1; B2] /\
-    (0 < n1 /\ 0 < n2 /\ 0 < B1 /\ 0 < B2)%Z.
-  Proof.
-    intros Hwf. unfold wf in Hwf. unfold ishape_of. rewrite shapes_a2b2 in *. rewrite shapes_b2a2.
-    unfold finish in *. rewrite (andb_comm (all_pos (bat ++ [n1; n2]))).
-    destruct (all_pos (bat ++ [nblk n1 B1 S1; nblk n2 B2 S2; B1; B2]) && all_pos (bat ++ [n1; n2])) eqn:E; [|discriminate].
-    apply andb_true_iff in E. destruct E as [E1 E2].
-    apply all_pos_snoc2 in E2.
-    replace (bat ++ [nblk n1 B1 S1; nblk n2 B2 S2; B1; B2]) with ((bat ++ [nblk n1 B1 S1; nblk n2 B2 S2]) ++ [B1; B2]) in E1
-      by (rewrite <- app_assoc; reflexivity).
-    apply all_pos_snoc2 in E1. repeat split; tauto.
-  Qed.
 
   Lemma D_a2b2 bat n1 n2 B1 B2 S1 S2 (x : farr) bv m1 m2 t1 t2 :
     (0 < S1)%Z -> (0 < S2)%Z -> inbox bat bv ->
@@ -390,3 +390,631 @@ Section Blk2.
     unfold flatten_batch. rewrite unravel_ravel by exact Hbv. reflexivity.
   Qed.
 End Blk2.
+
+Lemma inbox_4 a b c d v : inbox [a; b; c; d] v ->
+  exists p q r s, v = [p; q; r; s] /\ 0 <= p < a /\ 0 <= q < b /\ 0 <= r < c /\ 0 <= s < d.
+Proof.
+  destruct v as [|p [|q [|r [|s [|? ?]]]]]; simpl; try tauto. intros (H1 & H2 & H3 & H4 & _).
+  exists p, q, r, s. auto.
+Qed.
+
+Lemma blocks_tile_2 bat n1 n2 B1 B2 S1 S2 : blocks_tile (bat ++ [n1; n2]) [B1; B2] [S1; S2] = true ->
+  (B1 = S1 /\ n1 mod B1 = 0) /\ (B2 = S2 /\ n2 mod B2 = 0).
+Proof.
+  unfold blocks_tile. cbn [length]. rewrite (lastn_app_len bat [n1; n2]) by reflexivity. cbn [zip3 forallb].
+  rewrite andb_true_r. rewrite !andb_true_iff, !Z.eqb_eq. tauto.
+Qed.
+
+Lemma blocks_no_overlap_2 B1 B2 S1 S2 : blocks_no_overlap [B1; B2] [S1; S2] = true -> B1 <= S1 /\ B2 <= S2.
+Proof.
+  unfold blocks_no_overlap. cbn [combine forallb fst snd]. rewrite andb_true_r, andb_true_iff, !Z.leb_le. tauto.
+Qed.
+
+Section Blk2Iso.
+  Variable R : StarRing.
+  Add Ring RringN5 : (SRth R).
+  Notation farr := (list Z -> R).
+  Variable arr : Z -> farr.
+  Variable scal : Z -> R.
+  Variable orc : linop -> farr -> farr.
+  Notation D := (D R arr scal orc).
+  Local Open Scope sr_scope.
+
+  Theorem a2b2_gram bat n1 n2 B1 B2 S1 S2 (x : farr) bv p1 p2 :
+    wf (ArrayToBlocks (bat ++ [n1; n2]) [B1; B2] [S1; S2]) = true -> (B1 <= S1)%Z -> (B2 <= S2)%Z ->
+    inbox bat bv -> (0 <= p1 < n1)%Z -> (0 <= p2 < n2)%Z ->
+    D (adj (ArrayToBlocks (bat ++ [n1; n2]) [B1; B2] [S1; S2]))
+      (D (ArrayToBlocks (bat ++ [n1; n2]) [B1; B2] [S1; S2]) x) (bv ++ [p1; p2]) =
+    if ((p1 / S1 <? nblk n1 B1 S1)%Z && (p1 mod S1 <? B1)%Z) && ((p2 / S2 <? nblk n2 B2 S2)%Z && (p2 mod S2 <? B2)%Z)
+    then x (bv ++ [p1; p2]) else 0.
+  Proof.
+    intros Hwf HB1 HB2 Hbv Hp1 Hp2. destruct (wf_a2b2_facts _ _ _ _ _ _ _ Hwf) as (_ & _ & Hn1 & Hn2 & Hb1 & Hb2).
+    assert (HS1 : (0 < S1)%Z) by lia. assert (HS2 : (0 < S2)%Z) by lia.
+    cbn [adj]. rewrite (D_b2a2 R arr scal orc) by assumption.
+    rewrite (sumZ_ext R (nblk n1 B1 S1) _ (fun m1 => sumZ (nblk n2 B2 S2) (fun m2 => sumZ B1 (fun t1 => sumZ B2 (fun t2 =>
+               if (m1 * S1 + t1 =? p1)%Z && (m2 * S2 + t2 =? p2)%Z then x (bv ++ [p1; p2]) else 0))))).
+    2:{ intros m1 Hm1. apply sumZ_ext. intros m2 Hm2. apply sumZ_ext. intros t1 Ht1. apply sumZ_ext. intros t2 Ht2.
+        destruct (Z.eqb_spec (m1 * S1 + t1) p1) as [E1|]; [|reflexivity].
+        destruct (Z.eqb_spec (m2 * S2 + t2) p2) as [E2|]; [|reflexivity]. cbn [andb].
+        rewrite (D_a2b2 R arr scal orc) by assumption. rewrite E1, E2. reflexivity. }
+    rewrite (block_unique2 R _ _ B1 B2 S1 S2 p1 p2 (fun _ _ _ _ => x (bv ++ [p1; p2]))) by lia.
+    ring.
+  Qed.
+
+  Theorem a2b2_tile_iso bat n1 n2 B1 B2 (x : farr) bv p1 p2 :
+    wf (ArrayToBlocks (bat ++ [n1; n2]) [B1; B2] [B1; B2]) = true -> (n1 mod B1 = 0)%Z -> (n2 mod B2 = 0)%Z ->
+    inbox bat bv -> (0 <= p1 < n1)%Z -> (0 <= p2 < n2)%Z ->
+    D (adj (ArrayToBlocks (bat ++ [n1; n2]) [B1; B2] [B1; B2]))
+      (D (ArrayToBlocks (bat ++ [n1; n2]) [B1; B2] [B1; B2]) x) (bv ++ [p1; p2]) = x (bv ++ [p1; p2]).
+  Proof.
+    intros Hwf Hm1 Hm2 Hbv Hp1 Hp2. destruct (wf_a2b2_facts _ _ _ _ _ _ _ Hwf) as (_ & _ & Hn1 & Hn2 & Hb1 & Hb2).
+    rewrite a2b2_gram by (try assumption; lia).
+    pose proof (tile_div_lt n1 B1 p1 Hb1 Hm1 Hp1). pose proof (Z.mod_pos_bound p1 B1 Hb1).
+    pose proof (tile_div_lt n2 B2 p2 Hb2 Hm2 Hp2). pose proof (Z.mod_pos_bound p2 B2 Hb2).
+    destruct (Z.ltb_spec (p1 / B1) (nblk n1 B1 B1)); [|lia]. destruct (Z.ltb_spec (p1 mod B1) B1); [|lia].
+    destruct (Z.ltb_spec (p2 / B2) (nblk n2 B2 B2)); [|lia]. destruct (Z.ltb_spec (p2 mod B2) B2); [|lia]. reflexivity.
+  Qed.
+
+  Theorem b2a2_iso bat n1 n2 B1 B2 S1 S2 (y : farr) bv m1 m2 t1 t2 :
+    wf (BlocksToArray (bat ++ [n1; n2]) [B1; B2] [S1; S2]) = true -> (B1 <= S1)%Z -> (B2 <= S2)%Z ->
+    inbox bat bv -> (0 <= m1 < nblk n1 B1 S1)%Z -> (0 <= m2 < nblk n2 B2 S2)%Z -> (0 <= t1 < B1)%Z -> (0 <= t2 < B2)%Z ->
+    D (adj (BlocksToArray (bat ++ [n1; n2]) [B1; B2] [S1; S2]))
+      (D (BlocksToArray (bat ++ [n1; n2]) [B1; B2] [S1; S2]) y) (bv ++ [m1; m2; t1; t2]) = y (bv ++ [m1; m2; t1; t2]).
+  Proof.
+    intros Hwf HB1 HB2 Hbv Hm1 Hm2 Ht1 Ht2. rewrite wf_a2b_b2a in Hwf.
+    destruct (wf_a2b2_facts _ _ _ _ _ _ _ Hwf) as (_ & _ & Hn1 & Hn2 & Hb1 & Hb2).
+    assert (HS1 : (0 < S1)%Z) by lia. assert (HS2 : (0 < S2)%Z) by lia.
+    cbn [adj]. rewrite (D_a2b2 R arr scal orc) by assumption.
+    pose proof (a2b_in_bounds n1 B1 S1 m1 t1 HS1 Hm1 Ht1) as Hin1.
+    pose proof (a2b_in_bounds n2 B2 S2 m2 t2 HS2 Hm2 Ht2) as Hin2.
+    rewrite (D_b2a2 R arr scal orc); [| exact Hwf | exact HS1 | exact HS2 | exact Hbv | nia | nia].
+    rewrite (block_unique2 R _ _ B1 B2 S1 S2 (m1 * S1 + t1)%Z (m2 * S2 + t2)%Z
+               (fun m1' m2' t1' t2' => y (bv ++ [m1'; m2'; t1'; t2']))) by nia.
+    destruct (blk_div_mod S1 m1 t1 HS1 ltac:(lia)) as [E1 E2]. destruct (blk_div_mod S2 m2 t2 HS2 ltac:(lia)) as [E3 E4].
+    rewrite E1, E2, E3, E4.
+    destruct (Z.ltb_spec m1 (nblk n1 B1 S1)); [|lia]. destruct (Z.ltb_spec t1 B1); [|lia].
+    destruct (Z.ltb_spec m2 (nblk n2 B2 S2)); [|lia]. destruct (Z.ltb_spec t2 B2); [|lia]. cbn [andb]. ring.
+  Qed.
+
+  (* on the operator's own shapes *)
+  Lemma last2_of_len (i : list Z) : (2 <= length i)%nat -> exists bat n1 n2, i = bat ++ [n1; n2].
+  Proof. apply last2_split. Qed.
+
+  Theorem a2b_tile_iso_2d i B1 B2 S1 S2 (x : farr) idx :
+    (2 <= length i)%nat -> wf (ArrayToBlocks i [B1; B2] [S1; S2]) = true -> blocks_tile i [B1; B2] [S1; S2] = true ->
+    inbox (ishape_of (ArrayToBlocks i [B1; B2] [S1; S2])) idx ->
+    D (adj (ArrayToBlocks i [B1; B2] [S1; S2])) (D (ArrayToBlocks i [B1; B2] [S1; S2]) x) idx = x idx.
+  Proof.
+    intros Hl Hwf Ht Hb. destruct (last2_split i Hl) as (bat & n1 & n2 & ->).
+    destruct (wf_a2b2_facts _ _ _ _ _ _ _ Hwf) as (Ei & _). rewrite Ei in Hb.
+    destruct (blocks_tile_2 _ _ _ _ _ _ _ Ht) as [[<- Hm1] [<- Hm2]].
+    destruct (inbox_app_split _ _ _ Hb) as (bv & b & -> & Hbv & H1).
+    destruct (inbox_2 _ _ _ H1) as (p1 & p2 & -> & Hp1 & Hp2).
+    apply a2b2_tile_iso; assumption.
+  Qed.
+
+  Theorem b2a_iso_2d o B1 B2 S1 S2 (y : farr) idx :
+    (2 <= length o)%nat -> wf (BlocksToArray o [B1; B2] [S1; S2]) = true -> blocks_no_overlap [B1; B2] [S1; S2] = true ->
+    inbox (ishape_of (BlocksToArray o [B1; B2] [S1; S2])) idx ->
+    D (adj (BlocksToArray o [B1; B2] [S1; S2])) (D (BlocksToArray o [B1; B2] [S1; S2]) y) idx = y idx.
+  Proof.
+    intros Hl Hwf Ht Hb. destruct (last2_split o Hl) as (bat & n1 & n2 & ->).
+    pose proof Hwf as Hwf'. rewrite wf_a2b_b2a in Hwf'.
+    destruct (wf_a2b2_facts _ _ _ _ _ _ _ Hwf') as (_ & Ei & _). rewrite Ei in Hb.
+    destruct (blocks_no_overlap_2 _ _ _ _ Ht) as [H1 H2].
+    destruct (inbox_app_split _ _ _ Hb) as (bv & b & -> & Hbv & H4).
+    destruct (inbox_4 _ _ _ _ _ H4) as (m1 & m2 & t1 & t2 & -> & Hm1 & Hm2 & Ht1 & Ht2).
+    apply b2a2_iso; assumption.
+  Qed.
+End Blk2Iso.
+
+(* ================================================================ three block axes *)
+Lemma num_blks_3 bat n1 n2 n3 B1 B2 B3 S1 S2 S3 :
+  num_blks (bat ++ [n1; n2; n3]) [B1; B2; B3] [S1; S2; S3] = [nblk n1 B1 S1; nblk n2 B2 S2; nblk n3 B3 S3].
+Proof. unfold num_blks. cbn [length]. rewrite (lastn_app_len bat [n1; n2; n3]) by reflexivity. reflexivity. Qed.
+
+Lemma all_pos_snoc3 bat a b c : all_pos (bat ++ [a; b; c]) = true -> 0 < a /\ 0 < b /\ 0 < c.
+Proof.
+  rewrite all_pos_app. intros H. apply andb_true_iff in H. destruct H as [_ H].
+  apply all_pos_Forall in H. inversion H as [|? ? Ha H']; subst. inversion H' as [|? ? Hb H'']; subst.
+  inversion H''; subst. auto.
+Qed.
+
+Lemma last3_split (l : list Z) : (3 <= length l)%nat -> exists p u v w, l = p ++ [u; v; w].
+Proof.
+  intros H. rewrite <- (rev_involutive l). rewrite <- (rev_length l) in H.
+  destruct (rev l) as [|w [|v [|u r]]]; simpl in H; try lia.
+  exists (rev r), u, v, w. simpl. rewrite <- !app_assoc. reflexivity.
+Qed.
+
+Lemma inbox_3 a b c v : inbox [a; b; c] v -> exists p q r, v = [p; q; r] /\ 0 <= p < a /\ 0 <= q < b /\ 0 <= r < c.
+Proof.
+  destruct v as [|p [|q [|r [|? ?]]]]; simpl; try tauto. intros (H1 & H2 & H3 & _). exists p, q, r. auto.
+Qed.
+
+Lemma inbox_6 a b c d e f v : inbox [a; b; c; d; e; f] v ->
+  exists p q r s t u, v = [p; q; r; s; t; u] /\
+    0 <= p < a /\ 0 <= q < b /\ 0 <= r < c /\ 0 <= s < d /\ 0 <= t < e /\ 0 <= u < f.
+Proof.
+  destruct v as [|p [|q [|r [|s [|t [|u [|? ?]]]]]]]; simpl; try tauto. intros (H1 & H2 & H3 & H4 & H5 & H6 & _).
+  exists p, q, r, s, t, u. repeat split; tauto.
+Qed.
+
+Lemma shapes_a2b3 bat n1 n2 n3 B1 B2 B3 S1 S2 S3 :
+  shapes (ArrayToBlocks (bat ++ [n1; n2; n3]) [B1; B2; B3] [S1; S2; S3]) =
+  finish (bat ++ [nblk n1 B1 S1; nblk n2 B2 S2; nblk n3 B3 S3; B1; B2; B3]) (bat ++ [n1; n2; n3]).
+Proof. cbn [shapes length]. rewrite (droplast_app_len bat [n1; n2; n3]) by reflexivity. rewrite num_blks_3. reflexivity. Qed.
+
+Lemma shapes_b2a3 bat n1 n2 n3 B1 B2 B3 S1 S2 S3 :
+  shapes (BlocksToArray (bat ++ [n1; n2; n3]) [B1; B2; B3] [S1; S2; S3]) =
+  finish (bat ++ [n1; n2; n3]) (bat ++ [nblk n1 B1 S1; nblk n2 B2 S2; nblk n3 B3 S3; B1; B2; B3]).
+Proof. cbn [shapes length]. rewrite (droplast_app_len bat [n1; n2; n3]) by reflexivity. rewrite num_blks_3. reflexivity. Qed.
+
+Lemma wf_a2b3_facts bat n1 n2 n3 B1 B2 B3 S1 S2 S3 :
+  wf (ArrayToBlocks (bat ++ [n1; n2; n3]) [B1; B2; B3] [S1; S2; S3]) = true ->
+  ishape_of (ArrayToBlocks (bat ++ [n1; n2; n3]) [B1; B2; B3] [S1; S2; S3]) = bat ++ [n1; n2; n3] /\
+  ishape_of (BlocksToArray (bat ++ [n1; n2; n3]) [B1; B2; B3] [S1; S2; S3]) =
+    bat ++ [nblk n1 B1 S1; nblk n2 B2 S2; nblk n3 B3 S3; B1; B2; B3] /\
+  (0 < n1 /\ 0 < n2 /\ 0 < n3) /\ (0 < B1 /\ 0 < B2 /\ 0 < B3).
+Proof.
+  intros Hwf. unfold wf in Hwf. unfold ishape_of. rewrite shapes_a2b3 in Hwf. rewrite shapes_a2b3, shapes_b2a3.
+  unfold finish in Hwf |- *. rewrite (andb_comm (all_pos (bat ++ [n1; n2; n3]))).
+  destruct (all_pos (bat ++ [nblk n1 B1 S1; nblk n2 B2 S2; nblk n3 B3 S3; B1; B2; B3]) && all_pos (bat ++ [n1; n2; n3])) eqn:E;
+    [|discriminate].
+  apply andb_true_iff in E. destruct E as [E1 E2].
+  apply all_pos_snoc3 in E2.
+  replace (bat ++ [nblk n1 B1 S1; nblk n2 B2 S2; nblk n3 B3 S3; B1; B2; B3])
+    with ((bat ++ [nblk n1 B1 S1; nblk n2 B2 S2; nblk n3 B3 S3]) ++ [B1; B2; B3]) in E1
+    by (rewrite <- app_assoc; reflexivity).
+  apply all_pos_snoc3 in E1. repeat split; tauto.
+Qed.
+
+Lemma blocks_tile_3 bat n1 n2 n3 B1 B2 B3 S1 S2 S3 :
+  blocks_tile (bat ++ [n1; n2; n3]) [B1; B2; B3] [S1; S2; S3] = true ->
+  (B1 = S1 /\ n1 mod B1 = 0) /\ (B2 = S2 /\ n2 mod B2 = 0) /\ (B3 = S3 /\ n3 mod B3 = 0).
+Proof.
+  unfold blocks_tile. cbn [length]. rewrite (lastn_app_len bat [n1; n2; n3]) by reflexivity. cbn [zip3 forallb].
+  rewrite andb_true_r. rewrite !andb_true_iff, !Z.eqb_eq. tauto.
+Qed.
+
+Lemma blocks_no_overlap_3 B1 B2 B3 S1 S2 S3 :
+  blocks_no_overlap [B1; B2; B3] [S1; S2; S3] = true -> B1 <= S1 /\ B2 <= S2 /\ B3 <= S3.
+Proof.
+  unfold blocks_no_overlap. cbn [combine forallb fst snd]. rewrite andb_true_r, !andb_true_iff, !Z.leb_le. tauto.
+Qed.
+
+Section Pick3.
+  Variable R : StarRing.
+  Add Ring RringN6 : (SRth R).
+  Local Open Scope sr_scope.
+
+  Lemma block_unique3 N1 N2 N3 B1 B2 B3 S1 S2 S3 p1 p2 p3 (g : Z -> Z -> Z -> Z -> Z -> Z -> R) :
+    (0 < S1)%Z -> (B1 <= S1)%Z -> (0 <= p1)%Z -> (0 < S2)%Z -> (B2 <= S2)%Z -> (0 <= p2)%Z ->
+    (0 < S3)%Z -> (B3 <= S3)%Z -> (0 <= p3)%Z ->
+    sumZ N1 (fun m1 => sumZ N2 (fun m2 => sumZ N3 (fun m3 =>
+      sumZ B1 (fun t1 => sumZ B2 (fun t2 => sumZ B3 (fun t3 =>
+        if (m1 * S1 + t1 =? p1)%Z && (m2 * S2 + t2 =? p2)%Z && (m3 * S3 + t3 =? p3)%Z
+        then g m1 m2 m3 t1 t2 t3 else 0)))))) =
+    if ((p1 / S1 <? N1)%Z && (p1 mod S1 <? B1)%Z) &&
+       (((p2 / S2 <? N2)%Z && (p2 mod S2 <? B2)%Z) && ((p3 / S3 <? N3)%Z && (p3 mod S3 <? B3)%Z))
+    then g (p1 / S1)%Z (p2 / S2)%Z (p3 / S3)%Z (p1 mod S1)%Z (p2 mod S2)%Z (p3 mod S3)%Z else 0.
+  Proof.
+    intros H1 H2 H3 H4 H5 H6 H7 H8 H9.
+    set (C23 := ((p2 / S2 <? N2)%Z && (p2 mod S2 <? B2)%Z) && ((p3 / S3 <? N3)%Z && (p3 mod S3 <? B3)%Z)).
+    transitivity (sumZ N1 (fun m1 => sumZ B1 (fun t1 => if (m1 * S1 + t1 =? p1)%Z then
+        (if C23 then g m1 (p2 / S2)%Z (p3 / S3)%Z t1 (p2 mod S2)%Z (p3 mod S3)%Z else 0) else 0))).
+    { apply sumZ_ext. intros m1 _.
+      rewrite (sumZ_ext R N2 _ (fun m2 => sumZ B1 (fun t1 => sumZ N3 (fun m3 => sumZ B2 (fun t2 => sumZ B3 (fun t3 =>
+                 if (m1 * S1 + t1 =? p1)%Z && (m2 * S2 + t2 =? p2)%Z && (m3 * S3 + t3 =? p3)%Z
+                 then g m1 m2 m3 t1 t2 t3 else 0)))))).
+      2:{ intros m2 _. apply sumZ_exchange. }
+      rewrite sumZ_exchange. apply sumZ_ext. intros t1 _.
+      unfold C23.
+      rewrite <- (block_unique2 R N2 N3 B2 B3 S2 S3 p2 p3 (fun m2 m3 t2 t3 => g m1 m2 m3 t1 t2 t3)) by assumption.
+      rewrite <- sumZ_if. apply sumZ_ext. intros m2 _. rewrite <- sumZ_if. apply sumZ_ext. intros m3 _.
+      rewrite <- sumZ_if. apply sumZ_ext. intros t2 _. rewrite <- sumZ_if. apply sumZ_ext. intros t3 _.
+      destruct (m1 * S1 + t1 =? p1)%Z, (m2 * S2 + t2 =? p2)%Z, (m3 * S3 + t3 =? p3)%Z; reflexivity. }
+    rewrite (block_unique R N1 B1 S1 p1
+      (fun m1 t1 => if C23 then g m1 (p2 / S2)%Z (p3 / S3)%Z t1 (p2 mod S2)%Z (p3 mod S3)%Z else 0)) by assumption.
+    destruct ((p1 / S1 <? N1)%Z && (p1 mod S1 <? B1)%Z), C23; reflexivity.
+  Qed.
+End Pick3.
+
+Section Blk3.
+  Variable R : StarRing.
+  Add Ring RringN7 : (SRth R).
+  Notation farr := (list Z -> R).
+  Variable arr : Z -> farr.
+  Variable scal : Z -> R.
+  Variable orc : linop -> farr -> farr.
+  Notation D := (D R arr scal orc).
+  Local Open Scope sr_scope.
+
+  Lemma D_a2b3 bat n1 n2 n3 B1 B2 B3 S1 S2 S3 (x : farr) bv m1 m2 m3 t1 t2 t3 :
+    (0 < S1)%Z -> (0 < S2)%Z -> (0 < S3)%Z -> inbox bat bv ->
+    (0 <= m1 < nblk n1 B1 S1)%Z -> (0 <= m2 < nblk n2 B2 S2)%Z -> (0 <= m3 < nblk n3 B3 S3)%Z ->
+    (0 <= t1 < B1)%Z -> (0 <= t2 < B2)%Z -> (0 <= t3 < B3)%Z ->
+    D (ArrayToBlocks (bat ++ [n1; n2; n3]) [B1; B2; B3] [S1; S2; S3]) x (bv ++ [m1; m2; m3; t1; t2; t3]) =
+    x (bv ++ [m1 * S1 + t1; m2 * S2 + t2; m3 * S3 + t3]%Z).
+  Proof.
+    intros HS1 HS2 HS3 Hbv Hm1 Hm2 Hm3 Ht1 Ht2 Ht3.
+    unfold LinopTheory.D. cbn [den]. unfold array_to_blocks. cbn [length Nat.eqb negb].
+    rewrite (droplast_app_len bat [n1; n2; n3]) by reflexivity. rewrite (lastn_app_len bat [n1; n2; n3]) by reflexivity.
+    rewrite num_blks_3.
+    unfold unflatten_batch. pose proof (inbox_length _ _ Hbv) as Lb. rewrite <- Lb, firstn_pre, skipn_pre.
+    pose proof (ravel_bound bat bv Hbv) as Hr.
+    change (revn [S1; S2; S3] 0) with S3. change (revn [S1; S2; S3] 1) with S2. change (revn [S1; S2; S3] 2) with S1.
+    change (revn [B1; B2; B3] 0) with B3. change (revn [B1; B2; B3] 1) with B2. change (revn [B1; B2; B3] 2) with B1.
+    change (revn [nblk n1 B1 S1; nblk n2 B2 S2; nblk n3 B3 S3] 0) with (nblk n3 B3 S3).
+    change (revn [nblk n1 B1 S1; nblk n2 B2 S2; nblk n3 B3 S3] 1) with (nblk n2 B2 S2).
+    change (revn [nblk n1 B1 S1; nblk n2 B2 S2; nblk n3 B3 S3] 2) with (nblk n1 B1 S1).
+    unfold nblk in *.
+    rewrite (a2b3_exec_num_blks R _ _ _ _ B3 B2 B1 S3 S2 S1 n1 n2 n3); try assumption; try reflexivity.
+    unfold flatten_batch. rewrite unravel_ravel by exact Hbv. reflexivity.
+  Qed.
+
+  Lemma D_b2a3 bat n1 n2 n3 B1 B2 B3 S1 S2 S3 (y : farr) bv p1 p2 p3 :
+    wf (ArrayToBlocks (bat ++ [n1; n2; n3]) [B1; B2; B3] [S1; S2; S3]) = true ->
+    (0 < S1)%Z -> (0 < S2)%Z -> (0 < S3)%Z -> inbox bat bv -> (0 <= p1 < n1)%Z -> (0 <= p2 < n2)%Z -> (0 <= p3 < n3)%Z ->
+    D (BlocksToArray (bat ++ [n1; n2; n3]) [B1; B2; B3] [S1; S2; S3]) y (bv ++ [p1; p2; p3]) =
+    0 + sumZ (nblk n1 B1 S1) (fun m1 => sumZ (nblk n2 B2 S2) (fun m2 => sumZ (nblk n3 B3 S3) (fun m3 =>
+          sumZ B1 (fun t1 => sumZ B2 (fun t2 => sumZ B3 (fun t3 =>
+            if (m1 * S1 + t1 =? p1)%Z && (m2 * S2 + t2 =? p2)%Z && (m3 * S3 + t3 =? p3)%Z
+            then y (bv ++ [m1; m2; m3; t1; t2; t3]) else 0)))))).
+  Proof.
+    intros Hwf HS1 HS2 HS3 Hbv Hp1 Hp2 Hp3. unfold LinopTheory.D. cbn [den].
+    destruct (wf_a2b3_facts _ _ _ _ _ _ _ _ _ _ Hwf) as (_ & Ei & _). rewrite Ei.
+    unfold blocks_to_array. cbn [length Nat.eqb negb]. change (2 * 3)%nat with 6%nat.
+    rewrite (droplast_app_len bat [n1; n2; n3]) by reflexivity. rewrite (lastn_app_len bat [n1; n2; n3]) by reflexivity.
+    rewrite (lastn_app_len bat [nblk n1 B1 S1; nblk n2 B2 S2; nblk n3 B3 S3; B1; B2; B3]) by reflexivity. cbn [firstn].
+    unfold unflatten_batch. pose proof (inbox_length _ _ Hbv) as Lb. rewrite <- Lb, firstn_pre, skipn_pre.
+    pose proof (ravel_bound bat bv Hbv) as Hr.
+    change (revn [S1; S2; S3] 0) with S3. change (revn [S1; S2; S3] 1) with S2. change (revn [S1; S2; S3] 2) with S1.
+    change (revn [B1; B2; B3] 0) with B3. change (revn [B1; B2; B3] 1) with B2. change (revn [B1; B2; B3] 2) with B1.
+    change (revn [nblk n1 B1 S1; nblk n2 B2 S2; nblk n3 B3 S3] 0) with (nblk n3 B3 S3).
+    change (revn [nblk n1 B1 S1; nblk n2 B2 S2; nblk n3 B3 S3] 1) with (nblk n2 B2 S2).
+    change (revn [nblk n1 B1 S1; nblk n2 B2 S2; nblk n3 B3 S3] 2) with (nblk n1 B1 S1).
+    rewrite (b2a3_exec R _ _ _ _ B3 B2 B1 S3 S2 S1 _ _ _ n1 n2 n3); try assumption; try reflexivity.
+    f_equal. apply sumZ_ext. intros m1 _. apply sumZ_ext. intros m2 _. apply sumZ_ext. intros m3 _.
+    apply sumZ_ext. intros t1 _. apply sumZ_ext. intros t2 _. apply sumZ_ext. intros t3 _.
+    unfold flatten_batch. rewrite unravel_ravel by exact Hbv. reflexivity.
+  Qed.
+End Blk3.
+
+Section Blk3Iso.
+  Variable R : StarRing.
+  Add Ring RringN8 : (SRth R).
+  Notation farr := (list Z -> R).
+  Variable arr : Z -> farr.
+  Variable scal : Z -> R.
+  Variable orc : linop -> farr -> farr.
+  Notation D := (D R arr scal orc).
+  Local Open Scope sr_scope.
+
+  Theorem a2b3_gram bat n1 n2 n3 B1 B2 B3 S1 S2 S3 (x : farr) bv p1 p2 p3 :
+    wf (ArrayToBlocks (bat ++ [n1; n2; n3]) [B1; B2; B3] [S1; S2; S3]) = true ->
+    (B1 <= S1)%Z -> (B2 <= S2)%Z -> (B3 <= S3)%Z ->
+    inbox bat bv -> (0 <= p1 < n1)%Z -> (0 <= p2 < n2)%Z -> (0 <= p3 < n3)%Z ->
+    D (adj (ArrayToBlocks (bat ++ [n1; n2; n3]) [B1; B2; B3] [S1; S2; S3]))
+      (D (ArrayToBlocks (bat ++ [n1; n2; n3]) [B1; B2; B3] [S1; S2; S3]) x) (bv ++ [p1; p2; p3]) =
+    if ((p1 / S1 <? nblk n1 B1 S1)%Z && (p1 mod S1 <? B1)%Z) &&
+       (((p2 / S2 <? nblk n2 B2 S2)%Z && (p2 mod S2 <? B2)%Z) && ((p3 / S3 <? nblk n3 B3 S3)%Z && (p3 mod S3 <? B3)%Z))
+    then x (bv ++ [p1; p2; p3]) else 0.
+  Proof.
+    intros Hwf HB1 HB2 HB3 Hbv Hp1 Hp2 Hp3.
+    destruct (wf_a2b3_facts _ _ _ _ _ _ _ _ _ _ Hwf) as (_ & _ & (Hn1 & Hn2 & Hn3) & (Hb1 & Hb2 & Hb3)).
+    assert (HS1 : (0 < S1)%Z) by lia. assert (HS2 : (0 < S2)%Z) by lia. assert (HS3 : (0 < S3)%Z) by lia.
+    cbn [adj]. rewrite (D_b2a3 R arr scal orc) by assumption.
+    rewrite (sumZ_ext R (nblk n1 B1 S1) _ (fun m1 => sumZ (nblk n2 B2 S2) (fun m2 => sumZ (nblk n3 B3 S3) (fun m3 =>
+               sumZ B1 (fun t1 => sumZ B2 (fun t2 => sumZ B3 (fun t3 =>
+               if (m1 * S1 + t1 =? p1)%Z && (m2 * S2 + t2 =? p2)%Z && (m3 * S3 + t3 =? p3)%Z
+               then x (bv ++ [p1; p2; p3]) else 0))))))).
+    2:{ intros m1 Hm1. apply sumZ_ext. intros m2 Hm2. apply sumZ_ext. intros m3 Hm3.
+        apply sumZ_ext. intros t1 Ht1. apply sumZ_ext. intros t2 Ht2. apply sumZ_ext. intros t3 Ht3.
+        destruct (Z.eqb_spec (m1 * S1 + t1) p1) as [E1|]; [|reflexivity].
+        destruct (Z.eqb_spec (m2 * S2 + t2) p2) as [E2|]; [|reflexivity].
+        destruct (Z.eqb_spec (m3 * S3 + t3) p3) as [E3|]; [|reflexivity]. cbn [andb].
+        rewrite (D_a2b3 R arr scal orc) by assumption. rewrite E1, E2, E3. reflexivity. }
+    rewrite (block_unique3 R _ _ _ B1 B2 B3 S1 S2 S3 p1 p2 p3 (fun _ _ _ _ _ _ => x (bv ++ [p1; p2; p3]))) by lia.
+    ring.
+  Qed.
+
+  Theorem a2b3_tile_iso bat n1 n2 n3 B1 B2 B3 (x : farr) bv p1 p2 p3 :
+    wf (ArrayToBlocks (bat ++ [n1; n2; n3]) [B1; B2; B3] [B1; B2; B3]) = true ->
+    (n1 mod B1 = 0)%Z -> (n2 mod B2 = 0)%Z -> (n3 mod B3 = 0)%Z ->
+    inbox bat bv -> (0 <= p1 < n1)%Z -> (0 <= p2 < n2)%Z -> (0 <= p3 < n3)%Z ->
+    D (adj (ArrayToBlocks (bat ++ [n1; n2; n3]) [B1; B2; B3] [B1; B2; B3]))
+      (D (ArrayToBlocks (bat ++ [n1; n2; n3]) [B1; B2; B3] [B1; B2; B3]) x) (bv ++ [p1; p2; p3]) = x (bv ++ [p1; p2; p3]).
+  Proof.
+    intros Hwf Hm1 Hm2 Hm3 Hbv Hp1 Hp2 Hp3.
+    destruct (wf_a2b3_facts _ _ _ _ _ _ _ _ _ _ Hwf) as (_ & _ & (Hn1 & Hn2 & Hn3) & (Hb1 & Hb2 & Hb3)).
+    rewrite a2b3_gram by (try assumption; lia).
+    pose proof (tile_div_lt n1 B1 p1 Hb1 Hm1 Hp1). pose proof (Z.mod_pos_bound p1 B1 Hb1).
+    pose proof (tile_div_lt n2 B2 p2 Hb2 Hm2 Hp2). pose proof (Z.mod_pos_bound p2 B2 Hb2).
+    pose proof (tile_div_lt n3 B3 p3 Hb3 Hm3 Hp3). pose proof (Z.mod_pos_bound p3 B3 Hb3).
+    destruct (Z.ltb_spec (p1 / B1) (nblk n1 B1 B1)); [|lia]. destruct (Z.ltb_spec (p1 mod B1) B1); [|lia].
+    destruct (Z.ltb_spec (p2 / B2) (nblk n2 B2 B2)); [|lia]. destruct (Z.ltb_spec (p2 mod B2) B2); [|lia].
+    destruct (Z.ltb_spec (p3 / B3) (nblk n3 B3 B3)); [|lia]. destruct (Z.ltb_spec (p3 mod B3) B3); [|lia]. reflexivity.
+  Qed.
+
+  Theorem b2a3_iso bat n1 n2 n3 B1 B2 B3 S1 S2 S3 (y : farr) bv m1 m2 m3 t1 t2 t3 :
+    wf (BlocksToArray (bat ++ [n1; n2; n3]) [B1; B2; B3] [S1; S2; S3]) = true ->
+    (B1 <= S1)%Z -> (B2 <= S2)%Z -> (B3 <= S3)%Z -> inbox bat bv ->
+    (0 <= m1 < nblk n1 B1 S1)%Z -> (0 <= m2 < nblk n2 B2 S2)%Z -> (0 <= m3 < nblk n3 B3 S3)%Z ->
+    (0 <= t1 < B1)%Z -> (0 <= t2 < B2)%Z -> (0 <= t3 < B3)%Z ->
+    D (adj (BlocksToArray (bat ++ [n1; n2; n3]) [B1; B2; B3] [S1; S2; S3]))
+      (D (BlocksToArray (bat ++ [n1; n2; n3]) [B1; B2; B3] [S1; S2; S3]) y) (bv ++ [m1; m2; m3; t1; t2; t3]) =
+    y (bv ++ [m1; m2; m3; t1; t2; t3]).
+  Proof.
+    intros Hwf HB1 HB2 HB3 Hbv Hm1 Hm2 Hm3 Ht1 Ht2 Ht3. rewrite wf_a2b_b2a in Hwf.
+    destruct (wf_a2b3_facts _ _ _ _ _ _ _ _ _ _ Hwf) as (_ & _ & (Hn1 & Hn2 & Hn3) & (Hb1 & Hb2 & Hb3)).
+    assert (HS1 : (0 < S1)%Z) by lia. assert (HS2 : (0 < S2)%Z) by lia. assert (HS3 : (0 < S3)%Z) by lia.
+    cbn [adj]. rewrite (D_a2b3 R arr scal orc) by assumption.
+    pose proof (a2b_in_bounds n1 B1 S1 m1 t1 HS1 Hm1 Ht1) as Hin1.
+    pose proof (a2b_in_bounds n2 B2 S2 m2 t2 HS2 Hm2 Ht2) as Hin2.
+    pose proof (a2b_in_bounds n3 B3 S3 m3 t3 HS3 Hm3 Ht3) as Hin3.
+    rewrite (D_b2a3 R arr scal orc); [| exact Hwf | exact HS1 | exact HS2 | exact HS3 | exact Hbv | nia | nia | nia].
+    rewrite (block_unique3 R _ _ _ B1 B2 B3 S1 S2 S3 (m1 * S1 + t1)%Z (m2 * S2 + t2)%Z (m3 * S3 + t3)%Z
+               (fun m1' m2' m3' t1' t2' t3' => y (bv ++ [m1'; m2'; m3'; t1'; t2'; t3']))) by nia.
+    destruct (blk_div_mod S1 m1 t1 HS1 ltac:(lia)) as [E1 E2]. destruct (blk_div_mod S2 m2 t2 HS2 ltac:(lia)) as [E3 E4].
+    destruct (blk_div_mod S3 m3 t3 HS3 ltac:(lia)) as [E5 E6].
+    rewrite E1, E2, E3, E4, E5, E6.
+    destruct (Z.ltb_spec m1 (nblk n1 B1 S1)); [|lia]. destruct (Z.ltb_spec t1 B1); [|lia].
+    destruct (Z.ltb_spec m2 (nblk n2 B2 S2)); [|lia]. destruct (Z.ltb_spec t2 B2); [|lia].
+    destruct (Z.ltb_spec m3 (nblk n3 B3 S3)); [|lia]. destruct (Z.ltb_spec t3 B3); [|lia]. cbn [andb]. ring.
+  Qed.
+
+  Theorem a2b_tile_iso_3d i B1 B2 B3 S1 S2 S3 (x : farr) idx :
+    (3 <= length i)%nat -> wf (ArrayToBlocks i [B1; B2; B3] [S1; S2; S3]) = true ->
+    blocks_tile i [B1; B2; B3] [S1; S2; S3] = true ->
+    inbox (ishape_of (ArrayToBlocks i [B1; B2; B3] [S1; S2; S3])) idx ->
+    D (adj (ArrayToBlocks i [B1; B2; B3] [S1; S2; S3])) (D (ArrayToBlocks i [B1; B2; B3] [S1; S2; S3]) x) idx = x idx.
+  Proof.
+    intros Hl Hwf Ht Hb. destruct (last3_split i Hl) as (bat & n1 & n2 & n3 & ->).
+    destruct (wf_a2b3_facts _ _ _ _ _ _ _ _ _ _ Hwf) as (Ei & _). rewrite Ei in Hb.
+    destruct (blocks_tile_3 _ _ _ _ _ _ _ _ _ _ Ht) as ([<- Hm1] & [<- Hm2] & [<- Hm3]).
+    destruct (inbox_app_split _ _ _ Hb) as (bv & b & -> & Hbv & H1).
+    destruct (inbox_3 _ _ _ _ H1) as (p1 & p2 & p3 & -> & Hp1 & Hp2 & Hp3).
+    apply a2b3_tile_iso; assumption.
+  Qed.
+
+  Theorem b2a_iso_3d o B1 B2 B3 S1 S2 S3 (y : farr) idx :
+    (3 <= length o)%nat -> wf (BlocksToArray o [B1; B2; B3] [S1; S2; S3]) = true ->
+    blocks_no_overlap [B1; B2; B3] [S1; S2; S3] = true ->
+    inbox (ishape_of (BlocksToArray o [B1; B2; B3] [S1; S2; S3])) idx ->
+    D (adj (BlocksToArray o [B1; B2; B3] [S1; S2; S3])) (D (BlocksToArray o [B1; B2; B3] [S1; S2; S3]) y) idx = y idx.
+  Proof.
+    intros Hl Hwf Ht Hb. destruct (last3_split o Hl) as (bat & n1 & n2 & n3 & ->).
+    pose proof Hwf as Hwf'. rewrite wf_a2b_b2a in Hwf'.
+    destruct (wf_a2b3_facts _ _ _ _ _ _ _ _ _ _ Hwf') as (_ & Ei & _). rewrite Ei in Hb.
+    destruct (blocks_no_overlap_3 _ _ _ _ _ _ Ht) as (H1 & H2 & H3).
+    destruct (inbox_app_split _ _ _ Hb) as (bv & b & -> & Hbv & H6).
+    destruct (inbox_6 _ _ _ _ _ _ _ H6) as (m1 & m2 & m3 & t1 & t2 & t3 & -> & Hm1 & Hm2 & Hm3 & Ht1 & Ht2 & Ht3).
+    apply b2a3_iso; assumption.
+  Qed.
+End Blk3Iso.
+
+(* ================================================================ 5. all shortcut classes together *)
+(* the generated kernels exist for 1, 2 and 3 block axes; blk_shape and blk_strides must have that same length
+   (python raises otherwise) and the array must have at least that many axes *)
+Definition block_dims_ok (shape b s : list Z) : bool :=
+  match b, s with
+  | [_], [_] => (1 <=? length shape)%nat
+  | [_; _], [_; _] => (2 <=? length shape)%nat
+  | [_; _; _], [_; _; _] => (3 <=? length shape)%nat
+  | _, _ => false
+  end.
+
+(* the operators for which  A.N x = A^H (A x)  on the input box is PROVED below (given wf A):
+     - Identity, every class with the default A.H * A (all combinators, and the block operators outside
+       their shortcut regime): always;
+     - Reshape: equal sizes (numpy raises at apply otherwise);
+     - Transpose: axes None, or axes whose normalisation `a mod ndim` is a permutation of 0..ndim-1;
+     - Circshift: always;
+     - ArrayToBlocks in the tiling regime / BlocksToArray in the non-overlap regime: 1, 2 or 3 block axes;
+     - FFT / IFFT: [true] here, the theorem takes the unitarity of the oracle as hypothesis [fft_unitary] (C05). *)
+Definition normal_proved (A : linop) : bool :=
+  match A with
+  | Reshape o i => prodZ o =? prodZ i
+  | Transpose i (Some ax) => transpose_axes_okb i ax
+  | ArrayToBlocks i b s => negb (blocks_tile i b s) || block_dims_ok i b s
+  | BlocksToArray o b s => negb (blocks_no_overlap b s) || block_dims_ok o b s
+  | _ => true
+  end.
+
+Lemma wf_finish A o i : shapes A = finish o i -> wf A = true ->
+  ishape_of A = i /\ oshape_of A = o /\ Forall (fun n => 0 < n) o /\ Forall (fun n => 0 < n) i.
+Proof.
+  intros Hs Hwf. unfold wf in Hwf. unfold ishape_of, oshape_of. rewrite Hs in Hwf |- *.
+  destruct (finish o i) as [r|] eqn:F; [|discriminate]. destruct (finish_pos _ _ _ F) as [Ho Hi].
+  apply finish_ok in F. subst r. auto.
+Qed.
+
+Section Combined.
+  Variable R : StarRing.
+  Notation farr := (list Z -> R).
+  Variable arr : Z -> farr.
+  Variable scal : Z -> R.
+  Variable orc : linop -> farr -> farr.
+  Notation D := (D R arr scal orc).
+
+  (* the library FFT pair is unitary on the index box (what C05 proves of the model of fourier.fft / ifft) *)
+  Definition fft_unitary : Prop :=
+    forall s ax c (x : farr) idx, wf (FFT s ax c) = true -> inbox s idx ->
+      orc (IFFT s ax c) (orc (FFT s ax c) x) idx = x idx /\ orc (FFT s ax c) (orc (IFFT s ax c) x) idx = x idx.
+
+  Theorem array_to_blocks_tile_iso i b s (x : farr) idx :
+    wf (ArrayToBlocks i b s) = true -> blocks_tile i b s = true -> block_dims_ok i b s = true ->
+    inbox (ishape_of (ArrayToBlocks i b s)) idx ->
+    D (adj (ArrayToBlocks i b s)) (D (ArrayToBlocks i b s) x) idx = x idx.
+  Proof.
+    intros Hwf Ht Hd Hb. unfold block_dims_ok in Hd.
+    destruct b as [|B1 [|B2 [|B3 [|? ?]]]]; try discriminate;
+      destruct s as [|S1 [|S2 [|S3 [|? ?]]]]; try discriminate; apply Nat.leb_le in Hd.
+    - apply a2b_tile_iso_1d; try assumption. intros ->. simpl in Hd. lia.
+    - apply a2b_tile_iso_2d; assumption.
+    - apply a2b_tile_iso_3d; assumption.
+  Qed.
+
+  Theorem blocks_to_array_no_overlap_iso o b s (y : farr) idx :
+    wf (BlocksToArray o b s) = true -> blocks_no_overlap b s = true -> block_dims_ok o b s = true ->
+    inbox (ishape_of (BlocksToArray o b s)) idx ->
+    D (adj (BlocksToArray o b s)) (D (BlocksToArray o b s) y) idx = y idx.
+  Proof.
+    intros Hwf Ht Hd Hb. unfold block_dims_ok in Hd.
+    destruct b as [|B1 [|B2 [|B3 [|? ?]]]]; try discriminate;
+      destruct s as [|S1 [|S2 [|S3 [|? ?]]]]; try discriminate; apply Nat.leb_le in Hd.
+    - apply b2a_iso_1d; try assumption. intros ->. simpl in Hd. lia.
+    - apply b2a_iso_2d; assumption.
+    - apply b2a_iso_3d; assumption.
+  Qed.
+
+  Theorem normal_array_to_blocks i b s (x : farr) idx :
+    wf (ArrayToBlocks i b s) = true -> blocks_tile i b s = true -> block_dims_ok i b s = true ->
+    inbox (ishape_of (ArrayToBlocks i b s)) idx ->
+    D (normal (ArrayToBlocks i b s)) x idx = D (adj (ArrayToBlocks i b s)) (D (ArrayToBlocks i b s) x) idx.
+  Proof.
+    intros Hwf Ht Hd Hb. apply normal_shortcut; [exact Ht|]. apply array_to_blocks_tile_iso; assumption.
+  Qed.
+
+  Theorem normal_blocks_to_array o b s (y : farr) idx :
+    wf (BlocksToArray o b s) = true -> blocks_no_overlap b s = true -> block_dims_ok o b s = true ->
+    inbox (ishape_of (BlocksToArray o b s)) idx ->
+    D (normal (BlocksToArray o b s)) y idx = D (adj (BlocksToArray o b s)) (D (BlocksToArray o b s) y) idx.
+  Proof.
+    intros Hwf Ht Hd Hb. apply normal_shortcut; [exact Ht|]. apply blocks_to_array_no_overlap_iso; assumption.
+  Qed.
+
+  (* C04 for every class: the operator returned by _normal_linop acts as A^H A on the input box *)
+  Theorem normal_correct A (x : farr) idx :
+    wf A = true -> normal_proved A = true -> fft_unitary -> inbox (ishape_of A) idx ->
+    D (normal A) x idx = D (adj A) (D A x) idx.
+  Proof.
+    intros Hwf Hp Hfft Hb.
+    destruct (has_default_normal A) eqn:Hd.
+    { rewrite (normal_default R arr scal orc A x Hd). reflexivity. }
+    destruct A; cbn [has_default_normal] in Hd; try discriminate.
+    - (* Identity *) reflexivity.
+    - (* Reshape *)
+      destruct (wf_finish (Reshape oshape ishape) oshape ishape eq_refl Hwf) as (Ei & _ & Ho & Hi).
+      rewrite Ei in Hb. cbn [normal_proved] in Hp. apply Z.eqb_eq in Hp.
+      symmetry. apply normal_reshape; assumption.
+    - (* Transpose *)
+      assert (Ei : ishape_of (Transpose ishape axes) = ishape).
+      { destruct axes as [ax|]; eapply wf_finish; try exact Hwf; reflexivity. }
+      rewrite Ei in Hb. apply normal_transpose; [|exact Hb].
+      destruct axes as [ax|]; [|exact I]. cbn [normal_proved] in Hp. apply is_permb_spec. exact Hp.
+    - (* FFT *)
+      destruct (wf_finish (FFT shape axes center) shape shape eq_refl Hwf) as (Ei & _). rewrite Ei in Hb.
+      apply normal_shortcut; [exact I|]. exact (proj1 (Hfft shape axes center x idx Hwf Hb)).
+    - (* IFFT *)
+      destruct (wf_finish (IFFT shape axes center) shape shape eq_refl Hwf) as (Ei & _). rewrite Ei in Hb.
+      apply normal_shortcut; [exact I|]. exact (proj2 (Hfft shape axes center x idx Hwf Hb)).
+    - (* Circshift *)
+      destruct (wf_finish (Circshift shape shift axes) shape shape eq_refl Hwf) as (Ei & _). rewrite Ei in Hb.
+      apply normal_circshift; assumption.
+    - (* ArrayToBlocks, tiling regime *)
+      apply negb_false_iff in Hd. cbn [normal_proved] in Hp. rewrite Hd in Hp. cbn [negb orb] in Hp.
+      apply normal_array_to_blocks; assumption.
+    - (* BlocksToArray, non-overlap regime *)
+      apply negb_false_iff in Hd. cbn [normal_proved] in Hp. rewrite Hd in Hp. cbn [negb orb] in Hp.
+      apply normal_blocks_to_array; assumption.
+  Qed.
+
+  (* without FFT / IFFT no hypothesis on the oracle is needed *)
+  Definition no_fft (A : linop) : bool := match A with FFT _ _ _ | IFFT _ _ _ => false | _ => true end.
+
+  Theorem normal_correct_no_oracle A (x : farr) idx :
+    wf A = true -> normal_proved A = true -> no_fft A = true -> inbox (ishape_of A) idx ->
+    D (normal A) x idx = D (adj A) (D A x) idx.
+  Proof.
+    intros Hwf Hp Hn Hb.
+    destruct (has_default_normal A) eqn:Hd.
+    { rewrite (normal_default R arr scal orc A x Hd). reflexivity. }
+    destruct A; cbn [has_default_normal] in Hd; try discriminate; cbn [no_fft] in Hn; try discriminate.
+    - reflexivity.
+    - destruct (wf_finish (Reshape oshape ishape) oshape ishape eq_refl Hwf) as (Ei & _ & Ho & Hi).
+      rewrite Ei in Hb. cbn [normal_proved] in Hp. apply Z.eqb_eq in Hp.
+      symmetry. apply normal_reshape; assumption.
+    - assert (Ei : ishape_of (Transpose ishape axes) = ishape).
+      { destruct axes as [ax|]; eapply wf_finish; try exact Hwf; reflexivity. }
+      rewrite Ei in Hb. apply normal_transpose; [|exact Hb].
+      destruct axes as [ax|]; [|exact I]. cbn [normal_proved] in Hp. apply is_permb_spec. exact Hp.
+    - destruct (wf_finish (Circshift shape shift axes) shape shape eq_refl Hwf) as (Ei & _). rewrite Ei in Hb.
+      apply normal_circshift; assumption.
+    - apply negb_false_iff in Hd. cbn [normal_proved] in Hp. rewrite Hd in Hp. cbn [negb orb] in Hp.
+      apply normal_array_to_blocks; assumption.
+    - apply negb_false_iff in Hd. cbn [normal_proved] in Hp. rewrite Hd in Hp. cbn [negb orb] in Hp.
+      apply normal_blocks_to_array; assumption.
+  Qed.
+End Combined.
+
+(* ================================================================ the hypotheses are satisfiable *)
+Example normal_proved_examples :
+  let ops := [ Transpose [2; 3; 4] None; Transpose [2; 3; 4] (Some [-1; 0; -2]); Circshift [2; 3] [1; -2; 5] (Some [0; 1; -1]);
+               Reshape [6] [2; 3]; Identity [4];
+               ArrayToBlocks [3; 12] [4] [4]; ArrayToBlocks [2; 6; 4] [3; 2] [3; 2]; ArrayToBlocks [4; 6; 2] [2; 3; 1] [2; 3; 1];
+               BlocksToArray [3; 11] [2] [3]; BlocksToArray [7; 5] [2; 2] [3; 2]; BlocksToArray [5; 7; 4] [2; 3; 1] [2; 4; 3];
+               ArrayToBlocks [6] [3] [1]; BlocksToArray [6] [3] [2]; FFT [4; 4] None true ] in
+  forallb (fun A => wf A && normal_proved A) ops = true /\
+  map has_default_normal ops = [false; false; false; false; false; false; false; false; false; false; false; true; true; false].
+Proof. vm_compute. split; reflexivity. Qed.
+
+(* an oracle satisfying [fft_unitary] exists (any mutually inverse pair; here the identity), so the
+   hypothesis of [normal_correct] is not vacuous; C05 discharges it for the model of numpy.fft *)
+Example fft_unitary_satisfiable : fft_unitary ZRing (fun _ x => x).
+Proof. intros s ax c x idx _ _. split; reflexivity. Qed.
+
+(* ================================================================ 6. the side conditions are necessary *)
+(* exact evaluation on Z: outside the tiling / non-overlap regimes A^H A is NOT the identity, and the model's
+   [normal] (like the repaired python) falls back to A.H * A there *)
+Section Negative.
+  Let arr0 : Z -> list Z -> ZRing := fun _ _ => 0.
+  Let scal0 : Z -> ZRing := fun _ => 0.
+  Let orc0 : linop -> (list Z -> ZRing) -> list Z -> ZRing := fun _ x => x.
+  Let DZ := D ZRing arr0 scal0 orc0.
+  Let ones : list Z -> ZRing := fun _ => 1.
+
+  (* overlapping windows (ishape [6], blk [3], stride [1]): interior positions are covered three times *)
+  Example a2b_overlap_gram_not_identity :
+    let A := ArrayToBlocks [6] [3] [1] in
+    tabulate [6] (DZ (adj A) (DZ A ones)) = [1; 2; 3; 3; 2; 1] /\ tabulate [6] ones = [1; 1; 1; 1; 1; 1] /\
+    blocks_tile [6] [3] [1] = false /\ normal A = Compose [BlocksToArray [6] [3] [1]; A] /\
+    tabulate [6] (DZ (normal A) ones) = [1; 2; 3; 3; 2; 1].
+  Proof. vm_compute. repeat split; reflexivity. Qed.
+
+  (* b == s but the blocks do not fill the axis (7 = 2*3 + 1): the last position is dropped *)
+  Example a2b_partial_cover_gram_not_identity :
+    let A := ArrayToBlocks [7] [3] [3] in
+    tabulate [7] (DZ (adj A) (DZ A ones)) = [1; 1; 1; 1; 1; 1; 0] /\
+    blocks_tile [7] [3] [3] = false /\ normal A = Compose [BlocksToArray [7] [3] [3]; A].
+  Proof. vm_compute. repeat split; reflexivity. Qed.
+
+  (* gaps between blocks (b < s): uncovered positions are zeroed *)
+  Example a2b_gaps_gram_not_identity :
+    let A := ArrayToBlocks [8] [2] [3] in
+    tabulate [8] (DZ (adj A) (DZ A ones)) = [1; 1; 0; 1; 1; 0; 1; 1] /\ blocks_tile [8] [2] [3] = false.
+  Proof. vm_compute. repeat split; reflexivity. Qed.
+
+  (* overlapping windows for BlocksToArray (oshape [6], blk [3], stride [2] => blocks box [2; 3]):
+     entries [0,2] and [1,0] land on the same array position and are mixed *)
+  Example b2a_overlap_gram_not_identity :
+    let A := BlocksToArray [6] [3] [2] in
+    ishape_of A = [2; 3] /\
+    tabulate [2; 3] (DZ (adj A) (DZ A ones)) = [1; 1; 2; 2; 1; 1] /\
+    blocks_no_overlap [3] [2] = false /\ normal A = Compose [ArrayToBlocks [6] [3] [2]; A].
+  Proof. vm_compute. repeat split; reflexivity. Qed.
+
+  (* the positive regimes on the same kind of data, by evaluation (instances of the theorems above) *)
+  Example a2b_tile_gram_identity :
+    let A := ArrayToBlocks [2; 6] [3] [3] in
+    let x : list Z -> ZRing := fun idx => ravel [2; 6] idx + 1 in
+    tabulate [2; 6] (DZ (adj A) (DZ A x)) = tabulate [2; 6] x /\ normal A = Identity [2; 6].
+  Proof. vm_compute. split; reflexivity. Qed.
+
+  Example b2a_gap_gram_identity :
+    let A := BlocksToArray [8] [2] [3] in
+    let y : list Z -> ZRing := fun idx => ravel [3; 2] idx + 1 in
+    ishape_of A = [3; 2] /\ tabulate [3; 2] (DZ (adj A) (DZ A y)) = tabulate [3; 2] y /\ normal A = Identity [3; 2].
+  Proof. vm_compute. repeat split; reflexivity. Qed.
+End Negative.
